@@ -34,4 +34,5 @@ e08cfb2 C26 PrepareIncremental on a database with tables in level 0 and compacto
 444f237 C27 NewWriteBatchAt(T) with Set(k) followed by SetEntryAt/DeleteAt(k, T)
 df0ab5d C27 NewManagedWriteBatch with a Set without a version next to a SetEntryAt in the same internal transaction
 66e3f39 C08 ValueThreshold 1 (or any threshold not above the number of digits of the commit timestamp), then a crash
+0bb15be C38 DB.Load of a backup cut in the middle, then any transaction
 L
